@@ -17,7 +17,7 @@ Notation gref := (get_ref B).
 Lemma gref_hold_fields r q (s : st) :
   let x := gref (hold B r s) q in let y := gref s q in
   fr_node x = fr_node y /\ fr_mode x = fr_mode y /\ fr_opened x = fr_opened y /\ fr_parent x = fr_parent y /\
-  fr_file x = fr_file y /\ fr_xop x = fr_xop y /\ fr_oflags x = fr_oflags y.
+  fr_file x = fr_file y /\ fr_xop x = fr_xop y /\ fr_oflags x = fr_oflags y /\ fr_xattrOf x = fr_xattrOf y.
 Proof.
   cbv zeta. change (gref (hold B r s) q) with (gref (incref B r s) q). unfold incref.
   destruct (Nat.eq_dec r q) as [<-|N].
@@ -204,5 +204,16 @@ Theorem rename_cb_notifies tgt newnm r p (s : st) :
 Proof.
   intros E. unfold rename_cb. rewrite E. eexists. unfold bcall_.
   match goal with |- context [bstep ?b ?c] => destruct (bstep b c) end. cbn. reflexivity.
+Qed.
+
+(** an xattr fid cannot be cloned: EINVAL, no backend call in the handler, nothing bound *)
+Theorem xattr_clone_refused c fid newfid g r o (s : st) :
+  alookup peqb (c, fid) (s_fids B s) = Some r -> fr_xattrOf (gref s r) = Some o ->
+  fr_opened (gref s r) && (fid =? newfid) = false ->
+  step B bstep (OWalk c fid newfid [] g) s = (rerr EINVAL, release B bstep r (hold B r s)).
+Proof.
+  intros E X O. cbn [step]. unfold do_walk_op, with_fid, lookup_fid. rewrite E.
+  destruct (gref_hold_fields r r s) as (_ & _ & O1 & _ & _ & _ & _ & X1). cbv zeta in O1, X1. rewrite O1, O.
+  unfold do_walk. rewrite X1, X. reflexivity.
 Qed.
 End Fence.
